@@ -76,6 +76,16 @@ CLAIMED["C19"] = dict(
    note="Trusted: Lean kernel; encoding/json (the harness parses with a mirror struct tied to the source by a generated fact); Go's map-iteration guarantee; os/exec.",
    technique="Lean 4 proof (permutation invariance via a characterising invariant; base64 round trip) + repeated-decoding differential",
    design="§5 C19")
+CLAIMED["C08"] = dict(
+   text="PARTIAL. Lean 4: obligations by `decide` on the lock discipline regenerated from ocimem/*.go on every run (every exported *Registry method is one critical section of the registry mutex — GetTag included; lockset: any two accesses to a mutable upload-buffer field, one a write, share a mutex), so that every call is one atomic step of the sequential model and the order of the atomic steps is a linearization; for the one two-section operation (Buffer.Commit) an interleaving model with snapshot semantics proves that the digest invariant survives every schedule (committed blob matches its digest) — proofs in Props/C08.lean. Runtime support (not proof): a harness built with the Go race detector stresses 2-16 goroutines over a small key space directly and through ociserver, a tag-swap scenario (a tag always pointing at an existing manifest is never reported missing), concurrent writers on one upload session, and a Wing-Gong linearizability search of recorded small histories against the Lean sequential model.",
+   note="Partial by nature: the theorems are about interleavings of the atomic steps the extractor sees; that a Go execution is such an interleaving rests on sync.Mutex and on the extractor having seen every shared access. Freedom from data races in the Go memory model is a runtime fact supported by the race detector run, which also supplies the replay when the lockset obligation fails. Detection of reintroduced atomicity bugs by stress is probabilistic.",
+   technique="Lean 4 proof over regenerated lock facts (decide) and an atomic-step interleaving model + race-detector stress and linearizability search",
+   design="§5 C08")
+CLAIMED["C18"] = dict(
+   text="Lean 4 theorems about the client's paging loop against an ARBITRARY finite script of server answers: never reaches the Go panic site for any configured page size (a non-positive size is defaulted: F4), consumes one answer per request so it terminates with finite answers, every request that is followed by another delivered at least one item (progress), never calls the consumer after it declined or after an error. Correspondence: the pager diffed with the real client behind a scripted transport; every client operation (18 entry points incl. chunked writer, both resume modes, large-manifest tag read) against generated responses from {status classes} x {Location, Range, Content-Range, Content-Length, Docker-Content-Digest, Link, Content-Type, OCI-Chunk-Min-Length absent/empty/malformed/contradictory} x {body variants}, sequences of 1-4 responses; oracle: a result or an error, never a panic, never a hang.",
+   note="Trusted: Lean kernel; only the pager is modelled, the other operations are covered by fault-sequence enumeration against the real client (no model): their totality is observed, not proved. net/http parses status lines and Content-Length before the client sees them.",
+   technique="Lean 4 proof (pager totality/progress by structural recursion on the answer script) + scripted-transport fault enumeration",
+   design="§5 C18")
 NOT_YET = {}
 
 def main():
